@@ -38,6 +38,23 @@ theorem doWrites_P (p : Path) (w : Bool) (ws : List Bytes) : ∀ st : FSnap, P s
     · exact ih _ (doOpW_P st _ w h)
     · exact doOpW_P st _ w h
 
+theorem fFlushDue_P (st2 : FSnap) (n : Nat) (h : P st2) : P (fFlushDue st2 n).1 := by
+  unfold fFlushDue
+  split
+  · exact P_of_fields h rfl rfl rfl
+  · have q2 := doOpW_P st2 (.write .main st2.s.buf) (!st2.fhClosed) h
+    generalize doOpW st2 (.write .main st2.s.buf) (!st2.fhClosed) = r2 at q2 ⊢
+    simp only
+    split
+    · exact P_of_fields q2 rfl rfl rfl
+    · exact P_of_fields q2 rfl rfl rfl
+
+theorem fAfterWrite_P (st1 : FSnap) (n : Nat) (h : P st1) : P (fAfterWrite st1 n).1 := by
+  unfold fAfterWrite
+  split
+  · exact fFlushDue_P _ _ (P_of_fields h rfl rfl rfl)
+  · exact P_of_fields h rfl rfl rfl
+
 theorem fAppendBytes_P (st : FSnap) (l : Bytes) (h : P st) : P (fAppendBytes st l).1 := by
   unfold fAppendBytes
   simp only [h.2.1, Bool.not_true, Bool.false_eq_true, ↓reduceIte]
@@ -47,17 +64,7 @@ theorem fAppendBytes_P (st : FSnap) (l : Bytes) (h : P st) : P (fAppendBytes st 
     generalize doWrites st .main (!st.fhClosed) (bufWrite st.s.buf l).2 = r at q1 ⊢
     split
     · exact P_of_fields q1 rfl rfl rfl
-    · split
-      · split
-        · exact P_of_fields q1 rfl rfl rfl
-        · have q0 : P ({ r.1 with s := { ({ r.1 with s := { r.1.s with buf := (bufWrite st.s.buf l).1 } } : FSnap).s with flushDue := false } } : FSnap) :=
-            P_of_fields q1 rfl rfl rfl
-          have q2 := doOpW_P _ (.write .main (bufWrite st.s.buf l).1) (!r.1.fhClosed) q0
-          generalize doOpW _ (FsOp.write Path.main _) _ = r2 at q2 ⊢
-          split
-          · exact P_of_fields q2 rfl rfl rfl
-          · exact P_of_fields q2 rfl rfl rfl
-      · exact P_of_fields q1 rfl rfl rfl
+    · exact fAfterWrite_P _ _ (P_of_fields q1 rfl rfl rfl)
 
 theorem fCompactFront_P (st : FSnap) (lines : List Bytes) (h : P st) : P (fCompactFront st lines).1 := by
   unfold fCompactFront
